@@ -243,6 +243,16 @@ func latticePoints(n int64) []exact.P {
 	return out
 }
 
+// signedLattice is the n x n lattice shifted so that it spans negative, zero and positive ordinates.
+func signedLattice(n int64) []exact.P {
+	out := latticePoints(n)
+	for i := range out {
+		out[i].X -= n / 2
+		out[i].Y -= (n + 1) / 2
+	}
+	return out
+}
+
 func c19Subs() []fw.Sub {
 	return []fw.Sub{
 		fw.Prop[c19SegPt]{
@@ -253,7 +263,7 @@ func c19Subs() []fw.Sub {
 				if tier == "thorough" {
 					n = 8
 				}
-				pts := latticePoints(n)
+				pts := signedLattice(n)
 				for _, a := range pts {
 					for _, b := range pts {
 						for _, p := range pts {
@@ -281,7 +291,7 @@ func c19Subs() []fw.Sub {
 				if tier == "thorough" {
 					n = 8
 				}
-				pts := latticePoints(n)
+				pts := signedLattice(n)
 				for _, a := range pts {
 					for _, b := range pts {
 						for _, c := range pts {
